@@ -93,6 +93,10 @@ class Ctx:
         self.by_kind = {}
         self.findings = load_findings()
         self.replay_mode = False
+        # behaviour the specification family covers beyond the statement of the property (DESIGN section 14): a
+        # disagreement there is reported (BEYOND-PROPERTY line, evidence) but is no violation of the property
+        self.beyond_prefixes = ()
+        self.beyond = []
 
     # ---- TLC ----------------------------------------------------------------------------------
     def tlc(self, module, require_actions=(), allow_violation=False, **kw):
@@ -174,6 +178,9 @@ class Ctx:
             self.samples.append(json.loads(json.dumps(case, default=str)))
 
     def violation(self, key, message, case):
+        if any(key.startswith(p) for p in self.beyond_prefixes):
+            self.beyond.append((key, message, case))
+            return
         self.violations.append((key, message, case))
 
     def known(self, fid, what):
@@ -222,6 +229,7 @@ class Ctx:
                 "spec_drift_notes": self.drift,
                 "notes": self.notes,
                 "known_findings_seen": {k: len(v) for k, v in self.known_hits.items()},
+                "beyond_property": {"prefixes": list(self.beyond_prefixes), "deviations": [[k, m[:300]] for k, m, _ in self.beyond[:20]]},
                 "repo": REPO,
             },
             "assumptions": self.assumptions
@@ -237,6 +245,11 @@ class Ctx:
             with open(os.path.join(EVID, self.prop + ".json"), "w") as f:
                 json.dump(ev, f, indent=1, default=str)
         shutil.rmtree(self.tmp, ignore_errors=True)
+        seen_b = set()
+        for key, msg, _ in self.beyond:
+            if key not in seen_b and len(seen_b) < 12:
+                print("BEYOND-PROPERTY: property=%s %s: %s" % (self.prop, key, msg[:600].replace("\n", " ")))
+            seen_b.add(key)
         if new:
             os.makedirs(REPLAYS, exist_ok=True)
             shown = 0
@@ -278,6 +291,7 @@ def main(argv=None):
     ctx = Ctx(a.prop, a.tier, seed)
     try:
         mod = importlib.import_module("vh.props." + a.prop)
+        ctx.beyond_prefixes = tuple(getattr(mod, "BEYOND", ()))
         if a.replay:
             ctx.replay_mode = True
             with open(a.replay) as f:
